@@ -170,10 +170,20 @@ type tapeReader struct {
 	pos  int
 }
 
+// walkCallbackPanic is the value a callback panics with when the tape says
+// 'P': the callback leaves Walk by unwinding instead of returning (a test's
+// t.Fatal, a handler's recover() further up).  The harness recovers it.
+type walkCallbackPanic struct{}
+
 // next returns the decision for the next callback: true = descend/continue.
+// 'P' on the tape makes the callback panic instead of returning.
 func (t *tapeReader) next() bool {
 	d := true
 	if t.pos < len(t.tape) {
+		if t.tape[t.pos] == 'P' {
+			t.pos++
+			panic(walkCallbackPanic{})
+		}
 		d = t.tape[t.pos] != '0'
 	}
 	t.pos++
@@ -209,7 +219,16 @@ func refWalk(v *walkView, ws *WalkScn) []walkEvent {
 		}
 		return false
 	}
-	rec(v.root, commonmark.Node{}, nil, -1)
+	func() {
+		defer func() {
+			if r := recover(); r != nil {
+				if _, ok := r.(walkCallbackPanic); !ok {
+					panic(r)
+				}
+			}
+		}()
+		rec(v.root, commonmark.Node{}, nil, -1)
+	}()
 	return hist
 }
 
@@ -223,6 +242,7 @@ type walkObs struct {
 	Prunes      int
 	Aborts      int
 	NestedWalks int
+	Unwound     bool // a callback left Walk by panicking (injected)
 }
 
 // realWalk drives commonmark.Walk with the same tape.
@@ -329,7 +349,17 @@ func realWalk(v *walkView, ws *WalkScn, blocks []*commonmark.RootBlock, histCap 
 		}
 	}
 	sameOpts = opts
-	commonmark.Walk(v.root, opts)
+	func() {
+		defer func() {
+			if r := recover(); r != nil {
+				if _, ok := r.(walkCallbackPanic); !ok {
+					panic(r)
+				}
+				obs.Unwound = true
+			}
+		}()
+		commonmark.Walk(v.root, opts)
+	}()
 	return obs
 }
 
@@ -422,8 +452,9 @@ func checkC18(s *Scenario) (*Failure, *walkObs) {
 	if obs.Callbacks != len(want) {
 		return &Failure{Check: "history", Observed: fmt.Sprintf("%d callbacks; tail: %s", obs.Callbacks, describeHist(obs.Hist, len(obs.Hist)-1)), Expected: fmt.Sprintf("%d callbacks; tail: %s", len(want), describeHist(want, len(want)-1))}, obs
 	}
-	if obs.Aborts > 0 {
-		// sequel: a complete walk right after an aborted one must be unaffected by it
+	if obs.Aborts > 0 || obs.Unwound {
+		// sequel: a complete walk right after an aborted one (or one that a
+		// callback left by panicking) must be unaffected by it
 		full := *ws
 		full.Tape, full.Reentrant = "", false
 		want2 := refWalk(v, &full)
